@@ -2,16 +2,22 @@
 
 Decided:
   R12.1 (taint, whole package)  every string template in mitmproxy/** (contrib excluded) that contains an HTML tag and has
-        interpolations (f-string, ``%``, ``.format``, ``+`` chain, ``join`` of a display): each interpolated expression is
+        interpolations (f-string, ``%``, ``.format``, ``+`` chain, ``join`` of a display; the template text may sit in a module
+        constant / single-assignment local / behind ``textwrap.dedent`` or ``.strip()``): each interpolated expression is
         clean = constant / int-typed / lookup in a table of markup-free constants (status_codes.RESPONSES, checked) /
         wrapped in ``html.escape``.  Every parameter of the enclosing function (and what it derives, through locals and
-        same-module helpers) is a source.  Today 2 templates: ``format_error`` and ``proxyauth.make_auth_required_response``.
-  R12.2 ``format_error`` is only ever *called*, by exactly the three protocol-error sites, and each attaches
-        ``content-type: text/html`` in the same construction (Response.make headers / send_headers just before send_data).
-  R12.3 ``make_error_response`` = ``assemble_response(Response.make(status, format_error(..), Headers(.. Connection=close ..)))``,
-        Response.make assigns the body through the ``content``/``text`` setters, ``set_content`` writes Content-Length
-        (no Transfer-Encoding is passed), and every ``SendData(.., make_error_response(..))`` is followed by
-        ``CloseConnection`` on all paths.
+        same-module helpers) is a source; a *private* helper all of whose uses are direct calls inside its own module is
+        analysed symbolically instead and the obligation moves to its callers (derived sink).
+  R12.2 the value of ``format_error(..)`` is followed through locals, returning helpers and parameters of helpers; every place
+        it ends up is ``Response.make(.., body, headers)`` or ``X.send_data(sid, body)``; the headers of that construction
+        (resolved through locals, module constants and helpers returning them) declare ``content-type: text/html``
+        (for send_data: a dominating ``X.send_headers(sid, ..)`` on the same receiver / stream in the same function).  Each of
+        the three protocol-error anchors reaches such a construction through the call graph.
+  R12.3 ``make_error_response`` returns ``assemble_response(Response.make(.., headers))`` (through locals / helpers), the
+        headers carry Connection: close and no Transfer-Encoding; ``Response.make`` and the ``content`` setter are
+        *interpreted* (pyint) on representative bodies / header sets: body stored, Content-Length = len(body) written even
+        over a stale value; every ``yield SendData(.., <page>)`` (page followed through locals / helpers) is followed by
+        ``CloseConnection`` on all paths (a helper that does not close itself is inlined into its callers).
 NOT decided: the 407 page of proxyauth carries no Content-Type (it reflects nothing: only status/reason, R12.1); the
 HTML of mitmweb / onboarding templates (not error pages, not Python string templates); escaping *quality* of html.escape.
 """
@@ -19,7 +25,10 @@ HTML of mitmweb / onboarding templates (not error pages, not Python string templ
 from __future__ import annotations
 
 import ast
+import collections
+import collections.abc
 import re
+import time as _time
 
 from ..core import AnalysisError
 from ..core import norm
@@ -27,10 +36,16 @@ from ..model import attr_chain
 from ..model import enclosing_func
 from ..model import last_attr
 from ..model import qual_of
+from ..model import eval_order
 from ..model import walk_in_order
-from ..paths import followed_by
 from ..paths import GenericSpec
 from ..paths import traces_of
+from ..pyint import ClassRef
+from ..pyint import DictRec
+from ..pyint import Func
+from ..pyint import Interp
+from ..pyint import Raised
+from ..pyint import Rec
 from ..selftest import Mutant
 from ._helpers_G import describe
 from ._helpers_G import expected_markers
@@ -43,13 +58,16 @@ from ._helpers_G import TaintSpec
 PROP = "C12"
 REG = {
     "strength": "strong",
-    "technique": "taint (source/sanitiser/sink dataflow with same-module summaries) over every HTML-bearing string template of the "
-    "package + who-may-call + path pairing",
+    "technique": "taint (source/sanitiser/sink dataflow with same-module summaries, private helpers as derived sinks) over every HTML-bearing "
+    "string template of the package + value flow of the page through locals / helpers / the call graph to its consumers + abstract "
+    "interpretation (pyint) of Response.make and the content setter + path pairing",
     "claim": "every Python string template in mitmproxy/** that contains an HTML tag interpolates only constants, ints, markup-free "
-    "table lookups or html.escape()d values; format_error is used only by the three protocol-error sites, each declaring text/html; "
-    "the HTTP/1 error response is built by Response.make (Content-Length), carries Connection: close and is followed by CloseConnection "
-    "on every path.",
+    "table lookups or html.escape()d values; wherever the page built by format_error ends up (Response.make / send_data, followed through "
+    "locals and helpers) text/html is declared in the same construction, and the three protocol-error sites reach such a construction; "
+    "the HTTP/1 error response is built by Response.make (interpreted: body stored, Content-Length = len(body)), carries Connection: close, "
+    "no Transfer-Encoding, and every send of it is followed by CloseConnection on every path.",
     "note": "A callee outside the analysed module is assumed to return data derived from its operands. html.escape is trusted. "
+    "mitmproxy.net.encoding is replaced by an identity/gzip/invalid stand-in while http.py is interpreted. "
     "Positive example file mitmlint/positive/R12_1.py keeps R12.1 non-vacuous.",
 }
 
@@ -74,15 +92,75 @@ def _text(v) -> str | None:
     return None
 
 
+_BIND_CACHE: dict = {}
+
+
+def _bindings(fn, name: str):
+    """(value nodes, plain): what the local ``name`` of ``fn`` is bound to by plain single-name assignments (``x = v``, ``x: T = v``,
+    ``(x := v)``); plain is False when the name is also bound any other way (parameter, loop / with / except target, unpacking, ``+=``, del)."""
+    key = (id(fn), name)
+    if key in _BIND_CACHE and _BIND_CACHE[key][0] is fn:
+        return _BIND_CACHE[key][1]
+    vals, plain = [], True
+    a = fn.args
+    if any(x.arg == name for x in a.posonlyargs + a.args + a.kwonlyargs + ([a.vararg] if a.vararg else []) + ([a.kwarg] if a.kwarg else [])):
+        plain = False
+    for n in ast.walk(fn):
+        if isinstance(n, ast.Name) and n.id == name and isinstance(n.ctx, (ast.Store, ast.Del)):
+            p = getattr(n, "_parent", None)
+            if isinstance(p, ast.Assign) and any(t is n for t in p.targets):
+                vals.append(p.value)
+            elif isinstance(p, ast.AnnAssign) and p.target is n:
+                if p.value is not None:
+                    vals.append(p.value)
+            elif isinstance(p, ast.NamedExpr) and p.target is n:
+                vals.append(p.value)
+            else:
+                plain = False
+        elif isinstance(n, ast.ExceptHandler) and n.name == name:
+            plain = False
+        elif isinstance(n, (ast.MatchAs, ast.MatchStar)) and n.name == name:
+            plain = False
+        elif isinstance(n, ast.MatchMapping) and n.rest == name:
+            plain = False
+        elif isinstance(n, (ast.Global, ast.Nonlocal)) and name in n.names:
+            plain = False
+    _BIND_CACHE[key] = (fn, (vals, plain))
+    return vals, plain
+
+
+_TAG_PRESERVING_CALLS = ("dedent", "cleandoc")  # textwrap.dedent(T) / inspect.cleandoc(T): the tags of T survive
+_TAG_PRESERVING_METHODS = ("strip", "lstrip", "rstrip", "expandtabs")
+
+
 def _const_text(node, mod) -> str | None:
-    """Text of a str/bytes constant, or of a module-level name bound to one."""
-    t = _text(node)
-    if t is not None:
-        return t
-    if isinstance(node, ast.Name):
-        vals = mod.assigns(node.id)
-        if len(vals) == 1:
-            return _text(vals[0])
+    """Text of a str/bytes constant, of a name (single-assignment local, else module level) bound to one, or of a tag-preserving
+    wrapper around one (``textwrap.dedent(T)``, ``T.strip()``)."""
+    for _ in range(8):
+        t = _text(node)
+        if t is not None:
+            return t
+        if isinstance(node, ast.Name):
+            fn = enclosing_func(node) if hasattr(node, "_parent") else None
+            if fn is not None:
+                vals, plain = _bindings(fn, node.id)
+                if vals or not plain:
+                    if plain and len(vals) == 1:
+                        node = vals[0]
+                        continue
+                    return None
+            vals = mod.assigns(node.id)
+            if len(vals) == 1:
+                node = vals[0]
+                continue
+            return None
+        if isinstance(node, ast.Call) and len(node.args) == 1 and not node.keywords and last_attr(node.func) in _TAG_PRESERVING_CALLS:
+            node = node.args[0]
+            continue
+        if isinstance(node, ast.Call) and isinstance(node.func, ast.Attribute) and node.func.attr in _TAG_PRESERVING_METHODS and not node.keywords and len(node.args) <= 1:
+            node = node.func.value
+            continue
+        return None
     return None
 
 
@@ -151,15 +229,6 @@ def html_template(node, mod):
     return None
 
 
-class AnyCallMayRaise(GenericSpec):
-    """Every statement of a ``try`` body that contains a call may raise into each of the handlers."""
-
-    def raises_into(self, stmt, handler_names, st):
-        if any(isinstance(n, ast.Call) for n in ast.walk(stmt)):
-            return list(dict.fromkeys(handler_names))
-        return []
-
-
 class HtmlSpec(TaintSpec):
     name = "R12.1"
     sanitisers = {
@@ -168,9 +237,12 @@ class HtmlSpec(TaintSpec):
 
     def __init__(self):
         self.visited: dict[int, tuple] = {}
+        self.internal: dict[int, list[str]] = {}  # id(private helper) -> qualnames of its (only) callers
 
     def is_entry(self, fn, an) -> bool:
-        return True  # every parameter of a function that builds HTML may carry peer-controlled text
+        # every parameter of a function that builds HTML may carry peer-controlled text - except for a private helper whose every use is a
+        # direct call inside its own module: its parameters are symbolic and the obligation is discharged at the call sites (derived sink)
+        return id(fn) not in self.internal
 
     def yield_taint(self, node, frame):
         # the reply to a command (`err = yield commands.OpenConnection(..)`, `conn, err = yield GetHttpConnection(..)`) carries
@@ -215,18 +287,84 @@ def scan_templates(mods):
     return out
 
 
+def _is_private(name: str) -> bool:
+    return name.startswith("_") and not (name.startswith("__") and name.endswith("__"))
+
+
+def closed_callers(model, mods, mod, fn):
+    """[(Module, caller FunctionDef)] when ``fn`` is a private module function / method whose every use in the package is a direct call inside
+    its own module that the taint engine resolves (``name(..)`` / ``self.name(..)``); None otherwise (then every parameter is a source)."""
+    name = fn.name
+    if not _is_private(name) or fn.decorator_list:
+        return None
+    parent = getattr(fn, "_parent", None)
+    is_method = isinstance(parent, ast.ClassDef)
+    if not is_method and not isinstance(parent, ast.Module):
+        return None
+    for m in mods:
+        if m is mod or name not in m.source:
+            continue
+        if any(v == f"{mod.dotted}.{name}" for v in m.imports.values()):
+            return None
+        if any(isinstance(n, ast.Attribute) and n.attr == name for n in ast.walk(m.tree)):
+            return None
+    callers = []
+    for n in ast.walk(mod.tree):
+        if isinstance(n, ast.Name) and n.id == name and isinstance(n.ctx, ast.Load):
+            if is_method:
+                continue  # an unrelated local / global of the same name
+        elif isinstance(n, ast.Attribute) and n.attr == name:
+            if not is_method:
+                return None
+        else:
+            continue
+        p = getattr(n, "_parent", None)
+        if not (isinstance(p, ast.Call) and p.func is n):
+            return None
+        g = enclosing_func(p)
+        if g is None:
+            return None
+        if isinstance(n, ast.Name):
+            vals, plain = _bindings(g, name)
+            if vals or not plain:
+                return None
+        else:
+            gp = getattr(g, "_parent", None)
+            if not (isinstance(n.value, ast.Name) and n.value.id in ("self", "cls") and isinstance(gp, ast.ClassDef)):
+                return None
+            try:
+                r = model.method(mod.rel, getattr(gp, "_qual", gp.name), name)
+            except AnalysisError:
+                r = None
+            if r is None or r[1] is not fn:
+                return None
+        if all(g is not x for _, x in callers):
+            callers.append((mod, g))
+    return callers or None
+
+
 def run_html(model, mods, what):
-    """Taint-check every template of ``mods``.  Returns (visited dict values, hits)."""
+    """Taint-check every template of ``mods``.  Returns (templates, spec, program, hits)."""
     found = scan_templates(mods)
     spec = HtmlSpec()
     prog = Program(model, spec)
     pairs = []
+
+    def add(m, fn, depth):
+        if any(fn is f for _, f in pairs):
+            return
+        pairs.append((m, fn))
+        callers = closed_callers(model, mods, m, fn) if depth < 4 else None
+        if callers:
+            spec.internal[id(fn)] = [qual_of(g) for _, g in callers]
+            for cm, g in callers:
+                add(cm, g, depth + 1)
+
     for m, n, kind, interps in found:
         fn = enclosing_func(n)
         if fn is None:
             raise AnalysisError(f"{m.rel}:{n.lineno}: HTML template with interpolations outside a function is not modelled ({what})")
-        if all(fn is not f for _, f in pairs):
-            pairs.append((m, fn))
+        add(m, fn, 0)
     hits = prog.run(pairs)
     for m, n, kind, interps in found:
         if id(n) not in spec.visited:
@@ -234,32 +372,485 @@ def run_html(model, mods, what):
     return found, spec, prog, hits
 
 
-def _kw(call: ast.Call, name: str):
-    for k in call.keywords:
-        if k.arg is not None and k.arg.lower().replace("_", "-") == name:
-            return k.value
-    return None
+# ---------------------------------------------------------------------------------------------------
+# value resolution: where does the value of an expression come from (locals, module constants, helpers)
 
 
-def _is_text_html(v) -> bool:
-    t = _text(v)
-    return t is not None and t.strip().lower().split(";")[0].strip() == "text/html"
+class RC:
+    """Where an expression lives: module, enclosing function (None = module level) and, when we came in through a call, the argument
+    expressions bound to the function's parameters."""
+
+    __slots__ = ("mod", "fn", "args", "depth")
+
+    def __init__(self, mod, fn, args=None, depth=0):
+        self.mod, self.fn, self.args, self.depth = mod, fn, args or {}, depth
 
 
-def _headers_have(node, name: str, pred) -> bool:
-    """``http.Headers(Name_X=..)`` / dict literal / list of (name, value) tuples contains header ``name`` satisfying pred."""
-    if isinstance(node, ast.Call) and last_attr(node.func) in ("Headers", "dict"):
-        v = _kw(node, name)
-        if v is not None and pred(v):
-            return True
-        return any(_headers_have(a, name, pred) for a in node.args)
-    if isinstance(node, ast.Dict):
-        return any(k is not None and (_text(k) or "").lower() == name and pred(v) for k, v in zip(node.keys, node.values))
-    if isinstance(node, (ast.List, ast.Tuple)):
-        for e in node.elts:
-            if isinstance(e, ast.Tuple) and len(e.elts) == 2 and (_text(e.elts[0]) or "").lower() == name and pred(e.elts[1]):
+def _params(fn):
+    a = fn.args
+    return [x.arg for x in a.posonlyargs + a.args]
+
+
+def _is_method(fn) -> bool:
+    return isinstance(getattr(fn, "_parent", None), ast.ClassDef) and not any(norm(d) == "staticmethod" for d in fn.decorator_list)
+
+
+def _own_returns(fn):
+    return [n for n in ast.walk(fn) if isinstance(n, ast.Return) and n.value is not None and enclosing_func(n) is fn]
+
+
+def _is_generator(fn) -> bool:
+    return any(isinstance(n, (ast.Yield, ast.YieldFrom)) and enclosing_func(n) is fn for n in ast.walk(fn))
+
+
+def param_of_arg(cfn, call: ast.Call, idx, kw):
+    """Name of the parameter of ``cfn`` that receives positional argument ``idx`` / keyword ``kw`` of ``call`` (None: not decidable)."""
+    ps = _params(cfn)
+    if _is_method(cfn) and ps and ps[0] in ("self", "cls") and isinstance(call.func, ast.Attribute):
+        ps = ps[1:]
+    elif ps and ps[0] == "cls" and any(norm(d) == "classmethod" for d in cfn.decorator_list):
+        ps = ps[1:]
+    if kw is not None:
+        return kw if kw in ps + [x.arg for x in cfn.args.kwonlyargs] else None
+    if any(isinstance(a, ast.Starred) for a in call.args[: idx + 1]):
+        return None
+    return ps[idx] if idx < len(ps) else None
+
+
+class Resolver:
+    def __init__(self, model, stop=lambda call: False):
+        self.model = model
+        self.stop = stop
+
+    def callee(self, call: ast.Call, rc: RC):
+        """(Module, FunctionDef) of a repository function / method of the enclosing class called by ``call``, else None."""
+        f = call.func
+        r = None
+        if isinstance(f, ast.Name):
+            if rc.fn is not None:
+                vals, plain = _bindings(rc.fn, f.id)
+                if vals or not plain:
+                    return None
+            d = rc.mod.get(f.id)
+            if isinstance(d, (ast.FunctionDef, ast.AsyncFunctionDef)):
+                return rc.mod, d
+            r = self.model.resolve_name(rc.mod, f)
+        elif isinstance(f, ast.Attribute) and isinstance(f.value, ast.Name) and f.value.id in ("self", "cls") and rc.fn is not None:
+            p = getattr(rc.fn, "_parent", None)
+            if isinstance(p, ast.ClassDef):
+                try:
+                    r = self.model.method(rc.mod.rel, getattr(p, "_qual", p.name), f.attr)
+                except AnalysisError:
+                    r = None
+        elif isinstance(f, ast.Attribute) and attr_chain(f):
+            r = self.model.resolve_name(rc.mod, f)
+        if r is not None and isinstance(r[1], (ast.FunctionDef, ast.AsyncFunctionDef)):
+            return r
+        return None
+
+    def enter(self, call: ast.Call, rc: RC, target) -> RC:
+        cm, cf = target
+        args = {}
+        for i, a in enumerate(call.args):
+            if isinstance(a, ast.Starred):
+                break
+            p = param_of_arg(cf, call, i, None)
+            if p:
+                args[p] = (a, rc)
+        for k in call.keywords:
+            if k.arg and param_of_arg(cf, call, None, k.arg):
+                args[k.arg] = (k.value, rc)
+        a = cf.args
+        pos = a.posonlyargs + a.args
+        for p, d in list(zip(pos[len(pos) - len(a.defaults):], a.defaults)) + [(p, d) for p, d in zip(a.kwonlyargs, a.kw_defaults) if d is not None]:
+            args.setdefault(p.arg, (d, RC(cm, None)))
+        return RC(cm, cf, args, rc.depth + 1)
+
+    def resolve(self, e, rc: RC, _seen=(), trail=None):
+        """[(node, RC)]: the expressions whose value ``e`` may denote - names followed through plain local bindings, parameters bound by
+        the call we came through, module constants; conditional expressions split; calls of repository helpers replaced by what they
+        return (unless ``stop(call)``).  An expression that cannot be followed further is returned as it is.
+        ``trail`` (a list) collects the (RC, local name) pairs the value was held in on the way."""
+        if isinstance(e, ast.Name) and isinstance(e.ctx, ast.Load):
+            key = (id(rc.fn), e.id)
+            if key in _seen or len(_seen) > 12:
+                return [(e, rc)]
+            seen = _seen + (key,)
+            if rc.fn is not None:
+                vals, plain = _bindings(rc.fn, e.id)
+                if plain and vals:
+                    if trail is not None and all(rc.fn is not t.fn or e.id != nm for t, nm in trail):
+                        trail.append((rc, e.id))
+                    return [x for v in vals for x in self.resolve(v, rc, seen, trail)]
+                if e.id in rc.args and not vals:
+                    if trail is not None and all(rc.fn is not t.fn or e.id != nm for t, nm in trail):
+                        trail.append((rc, e.id))
+                    a, arc = rc.args[e.id]
+                    return self.resolve(a, arc, seen, trail)
+                if vals or not plain:
+                    return [(e, rc)]
+            vals = rc.mod.assigns(e.id)
+            if vals:
+                return [x for v in vals for x in self.resolve(v, RC(rc.mod, None), seen, trail)]
+            return [(e, rc)]
+        if isinstance(e, ast.IfExp):
+            return self.resolve(e.body, rc, _seen, trail) + self.resolve(e.orelse, rc, _seen, trail)
+        if isinstance(e, ast.NamedExpr):
+            return self.resolve(e.value, rc, _seen, trail)
+        if isinstance(e, ast.Call) and not self.stop(e) and rc.depth < 4:
+            t = self.callee(e, rc)
+            if t is not None and not _is_generator(t[1]):
+                rets = _own_returns(t[1])
+                if rets:
+                    rc2 = self.enter(e, rc, t)
+                    return [x for r in rets for x in self.resolve(r.value, rc2, _seen, trail)]
+        return [(e, rc)]
+
+    def texts(self, e, rc: RC):
+        """The set of constant texts ``e`` may denote (str / bytes, ``"..".encode()`` included); None when an alternative is not a constant."""
+        out = set()
+        for n, nrc in self.resolve(e, rc):
+            if isinstance(n, ast.Call) and isinstance(n.func, ast.Attribute) and n.func.attr in ("encode", "decode") and _text(n.func.value) is not None:
+                n = n.func.value
+            t = _text(n)
+            if t is None:
+                return None
+            out.add(t)
+        return out or None
+
+    def text(self, e, rc: RC):
+        """The one constant text ``e`` denotes, else None."""
+        ts = self.texts(e, rc)
+        return next(iter(ts)) if ts is not None and len(ts) == 1 else None
+
+    # -- header displays ------------------------------------------------------------------------------
+    def headers(self, e, rc: RC, what: str):
+        """One (fields, complete) per alternative value of the header expression ``e``; fields: lower-case name -> [(value node, RC)];
+        complete is False when part of the display is not a literal (name, value) pair.  AnalysisError when ``e`` is no display at all."""
+        out = []
+        trail: list = []
+        alts = self.resolve(e, rc, trail=trail)
+        later = []  # headers = Headers(..); headers["connection"] = "close": writes through every local / parameter that held the object
+        for trc, name in trail:
+            later += [(k, v, trc) for k, v in header_writes(trc.fn, name, what)]
+        for n, nrc in alts:
+            fields: dict = {}
+            ok = self._display(n, nrc, fields, 0)
+            if ok is None:
+                raise AnalysisError(f"{what}: the headers expression `{norm(n)[:80]}` is not a header display the rule can read")
+            for k, v, krc in later:
+                t = self.text(k, krc)
+                if t is None:
+                    ok = False
+                else:
+                    fields[t.lower()] = [(v, krc)]  # item assignment replaces every earlier value of that name
+            out.append((fields, ok))
+        return out
+
+    def _pair(self, e, rc, fields) -> bool:
+        if isinstance(e, (ast.Tuple, ast.List)) and len(e.elts) == 2 and not any(isinstance(x, ast.Starred) for x in e.elts):
+            k = self.text(e.elts[0], rc)
+            if k is not None:
+                fields.setdefault(k.lower(), []).append((e.elts[1], rc))
                 return True
-    return False
+        return False
+
+    def _display(self, n, rc, fields, depth):
+        """True: every field is known; False: some are not; None: not a header display."""
+        if depth > 4:
+            return None
+        if isinstance(n, ast.Call) and last_attr(n.func) in ("Headers", "dict", "list", "tuple"):
+            kind = last_attr(n.func)
+            complete = True
+            for k in n.keywords:
+                if k.arg is None:
+                    complete = False
+                else:
+                    name = k.arg.lower().replace("_", "-") if kind == "Headers" else k.arg.lower()
+                    fields.setdefault(name, []).append((k.value, rc))
+            for a in n.args:
+                alts = self.resolve(a, rc)
+                if len(alts) != 1:
+                    complete = False
+                    continue
+                r = self._display(alts[0][0], alts[0][1], fields, depth + 1)
+                if r is None:
+                    complete = False
+                else:
+                    complete = complete and r
+            return complete
+        if isinstance(n, ast.Dict):
+            complete = True
+            for k, v in zip(n.keys, n.values):
+                t = self.text(k, rc) if k is not None else None
+                if t is None:
+                    complete = False
+                else:
+                    fields.setdefault(t.lower(), []).append((v, rc))
+            return complete
+        if isinstance(n, (ast.List, ast.Tuple, ast.Set)):
+            complete = True
+            for e in n.elts:
+                if not self._pair(e, rc, fields):
+                    complete = False
+            return complete
+        if isinstance(n, ast.BinOp) and isinstance(n.op, (ast.Add, ast.BitOr)):
+            a = self._display(n.left, rc, fields, depth + 1)
+            b = self._display(n.right, rc, fields, depth + 1)
+            return None if a is None and b is None else bool(a) and bool(b)
+        return None
+
+    def header_is(self, displays, name: str, pred) -> bool:
+        """Every alternative carries header ``name`` and each value given for it satisfies ``pred`` (a predicate on its constant text)."""
+        for fields, _ in displays:
+            vals = fields.get(name)
+            if not vals:
+                return False
+            for v, vrc in vals:
+                ts = self.texts(v, vrc)
+                if ts is None or not all(pred(t) for t in ts):
+                    return False
+        return bool(displays)
+
+    def header_absent(self, displays, name: str, what: str) -> bool:
+        for fields, complete in displays:
+            if name in fields:
+                return False
+            if not complete:
+                raise AnalysisError(f"{what}: the header set is not a literal display; the rule cannot decide that {name} is absent")
+        return True
+
+
+_HEADER_MUTATORS = ("set_all", "add", "insert", "update", "setdefault", "pop", "clear", "popitem", "set_state", "extend", "append", "remove")
+
+
+def header_writes(fn, chain: str, what: str):
+    """[(key node, value node)] of the ``<chain>[key] = value`` statements of ``fn`` (chain = 'headers' / 'resp.headers'); any other
+    modification of that object (del, +=, mutating method) is outside the model -> AnalysisError."""
+    out = []
+    for n in walk_in_order(fn):
+        if isinstance(n, ast.Subscript) and attr_chain(n.value) == chain and isinstance(n.ctx, (ast.Store, ast.Del)):
+            par = getattr(n, "_parent", None)
+            if isinstance(n.ctx, ast.Store) and isinstance(par, ast.Assign) and len(par.targets) == 1:
+                out.append((n.slice, par.value))
+            else:
+                raise AnalysisError(f"{what}: `{norm(par)[:80]}` modifies the header set in a way the rule does not model")
+        elif isinstance(n, ast.Call) and isinstance(n.func, ast.Attribute) and attr_chain(n.func.value) == chain and n.func.attr in _HEADER_MUTATORS:
+            raise AnalysisError(f"{what}: `{norm(n)[:80]}` modifies the header set in a way the rule does not model")
+        elif isinstance(n, (ast.AugAssign, ast.Assign)) and any(attr_chain(t) == chain for t in (n.targets if isinstance(n, ast.Assign) else [n.target])) and "." in chain:
+            raise AnalysisError(f"{what}: `{norm(n)[:80]}` replaces the header set: not modelled")
+    return out
+
+
+def _is_text_html(t: str) -> bool:
+    return t.strip().lower().split(";")[0].strip() == "text/html"
+
+
+def _subst(n, fn, depth=0):
+    """A copy of expression ``n`` in which single-assignment locals of ``fn`` are replaced by their value (for comparing *values*)."""
+    if isinstance(n, ast.Name) and isinstance(n.ctx, ast.Load) and fn is not None and depth < 6:
+        vals, plain = _bindings(fn, n.id)
+        if plain and len(vals) == 1:
+            return _subst(vals[0], fn, depth + 1)
+    if isinstance(n, ast.AST):
+        new = type(n)()
+        for f, v in ast.iter_fields(n):
+            setattr(new, f, [_subst(x, fn, depth) for x in v] if isinstance(v, list) else _subst(v, fn, depth))
+        return new
+    return n
+
+
+def vkey(e, fn) -> str:
+    return ast.unparse(_subst(e, fn))
+
+
+# ---------------------------------------------------------------------------------------------------
+# forward flow of one value: where does the result of a call end up
+
+
+_NOFLOW_BUILTINS = {"len", "isinstance", "bool", "type", "repr", "id", "hash", "print"}
+_QUERY_METHODS = {"startswith", "endswith", "count", "find", "rfind", "index", "rindex", "isascii", "isalnum", "isspace", "__len__", "__contains__"}
+_LOG_METHODS = {"debug", "info", "warning", "warn", "error", "exception", "critical", "log"}
+
+
+def _is_logging(call: ast.Call) -> bool:
+    f = call.func
+    return isinstance(f, ast.Attribute) and f.attr in _LOG_METHODS and "log" in attr_chain(f.value).lower()
+
+
+def value_uses(node, fn, seen=None):
+    """What happens to the value of expression ``node`` inside ``fn``:
+    ('arg', call, idx|None, kw|None) | ('return', stmt) | ('discard', node) | ('other', node)."""
+    seen = set() if seen is None else seen
+    out = []
+    cur = node
+    while True:
+        p = getattr(cur, "_parent", None)
+        if isinstance(p, ast.keyword):
+            call = p._parent
+            if isinstance(call, ast.Call) and p.arg is not None:
+                out.append(("arg", call, None, p.arg))
+            else:
+                out.append(("other", p))
+            return out
+        if isinstance(p, ast.Call):
+            if cur is p.func:
+                out.append(("other", p))
+                return out
+            idx = next(i for i, a in enumerate(p.args) if a is cur)
+            if (isinstance(p.func, ast.Name) and p.func.id in _NOFLOW_BUILTINS) or _is_logging(p):
+                out.append(("discard", p))
+            else:
+                out.append(("arg", p, idx, None))
+            return out
+        if isinstance(p, (ast.Assign, ast.AnnAssign)) and cur is p.value:
+            for t in p.targets if isinstance(p, ast.Assign) else [p.target]:
+                if isinstance(t, ast.Name):
+                    out += _name_uses(t.id, fn, seen)
+                else:
+                    out.append(("other", p))
+            return out
+        if isinstance(p, ast.NamedExpr) and cur is p.value:
+            out += _name_uses(p.target.id, fn, seen)
+            cur = p
+            continue
+        if isinstance(p, ast.IfExp):
+            if cur is p.test:
+                out.append(("discard", p))
+                return out
+            cur = p
+            continue
+        if isinstance(p, ast.BoolOp):
+            cur = p
+            continue
+        if isinstance(p, ast.Return):
+            out.append(("return", p))
+            return out
+        if isinstance(p, (ast.Expr, ast.Compare, ast.Assert, ast.If, ast.While)) or (isinstance(p, ast.UnaryOp) and isinstance(p.op, ast.Not)):
+            out.append(("discard", p))
+            return out
+        if isinstance(p, ast.Attribute) and p.attr in _QUERY_METHODS and isinstance(getattr(p, "_parent", None), ast.Call) and p._parent.func is p:
+            out.append(("discard", p._parent))  # page.startswith(..): a bool / int about the value, not the value
+            return out
+        out.append(("other", p if p is not None else cur))
+        return out
+
+
+def _name_uses(name, fn, seen):
+    if name in seen:
+        return []
+    seen.add(name)
+    out = []
+    for n in walk_in_order(fn):
+        if isinstance(n, ast.Name) and n.id == name and isinstance(n.ctx, ast.Load):
+            out += value_uses(n, fn, seen)
+    return out
+
+
+class Flow:
+    """Follow the value produced by every call of ``root`` (a function name) through the package: locals, helpers that return it
+    (they become producers themselves) and helpers that receive it as an argument.  ``classify(call, idx, kw)`` names the places
+    where the value may end up (sinks); everything else is reported as a problem."""
+
+    def __init__(self, model, mods, res: Resolver, root: str, classify):
+        self.model, self.mods, self.res, self.classify = model, mods, res, classify
+        self.sinks = []  # (Module, fn, call, kind, producer call, RC of the sink)
+        self.bare_refs = []  # (Module, node): the producer is referenced without being called
+        self.problems = []  # (Module, node, text)
+        self.producers = [root]
+        self.calls = []  # (Module, fn, call, producer name)
+        self._params_done = set()
+        i = 0
+        while i < len(self.producers):
+            self._producer(self.producers[i], i == 0)
+            i += 1
+
+    def _producer(self, name, is_root):
+        for mod in self.mods:
+            if name not in mod.source:
+                continue
+            for n in walk_in_order(mod.tree):
+                ref = (isinstance(n, ast.Name) and n.id == name and isinstance(n.ctx, ast.Load)) or (isinstance(n, ast.Attribute) and n.attr == name)
+                if not ref:
+                    continue
+                p = n._parent
+                if not (isinstance(p, ast.Call) and p.func is n):
+                    self.bare_refs.append((mod, n))
+                    continue
+                fn = enclosing_func(p)
+                if fn is None:
+                    self.problems.append((mod, p, f"{name}(...) is called at module level"))
+                    continue
+                self.calls.append((mod, fn, p, name))
+                for u in value_uses(p, fn):
+                    self._use(u, RC(mod, fn), p)
+
+    def _use(self, u, rc, origin):
+        mod, fn = rc.mod, rc.fn
+        kind = u[0]
+        if kind == "discard":
+            return
+        if kind == "return":
+            if _is_generator(fn):
+                self.problems.append((mod, u[1], "the value is returned from a generator"))
+            elif fn.name not in self.producers:
+                self.producers.append(fn.name)
+            return
+        if kind == "arg":
+            _, call, idx, kw = u
+            k = self.classify(call, idx, kw)
+            if k:
+                self.sinks.append((mod, fn, call, k, origin, rc))
+                return
+            t = self.res.callee(call, rc)
+            pname = param_of_arg(t[1], call, idx, kw) if t is not None else None
+            if pname is None:
+                self.problems.append((mod, call, f"the value is handed to `{norm(call.func)}`, which the rule cannot follow"))
+                return
+            cm, cf = t
+            if (id(cf), pname) in self._params_done:
+                return
+            self._params_done.add((id(cf), pname))
+            vals, _ = _bindings(cf, pname)
+            if vals:
+                self.problems.append((cm, cf, f"parameter {pname} of {qual_of(cf)} is re-bound"))
+                return
+            rc2 = self.res.enter(call, rc, t)
+            for n in walk_in_order(cf):
+                if isinstance(n, ast.Name) and n.id == pname and isinstance(n.ctx, ast.Load):
+                    for u2 in value_uses(n, cf):
+                        self._use(u2, rc2, origin)
+            return
+        self.problems.append((mod, u[1], f"the value is used in `{norm(u[1])[:80]}`, which the rule does not model"))
+
+
+def reach(res: Resolver, mod, fn) -> dict:
+    """id(FunctionDef) -> (Module, FunctionDef) of ``fn`` and everything it may call (transitively) through the repository call graph."""
+    out = {id(fn): (mod, fn)}
+    todo = [(mod, fn)]
+    while todo:
+        m, f = todo.pop()
+        for n in ast.walk(f):
+            if isinstance(n, ast.Call):
+                t = res.callee(n, RC(m, f))
+                if t is not None and id(t[1]) not in out:
+                    out[id(t[1])] = t
+                    todo.append(t)
+    return out
+
+
+def callers_in_module(res: Resolver, mod, fn):
+    """[(caller FunctionDef, call)] of the calls of ``fn`` inside its module."""
+    out = []
+    for n in walk_in_order(mod.tree):
+        if isinstance(n, ast.Call) and last_attr(n.func) == fn.name:
+            g = enclosing_func(n)
+            if g is None or g is fn:
+                continue
+            t = res.callee(n, RC(mod, g))
+            if t is not None and t[1] is fn:
+                out.append((g, n))
+    return out
 
 
 def _stmt_of(node):
@@ -269,13 +860,165 @@ def _stmt_of(node):
     return n
 
 
-def _siblings_before(stmt):
-    p = getattr(stmt, "_parent", None)
-    for field in ("body", "orelse", "finalbody"):
-        seq = getattr(p, field, None)
-        if isinstance(seq, list) and stmt in seq:
-            return seq[: seq.index(stmt)]
-    return []
+def _dominating_statements(stmt, fn):
+    """Statements executed before ``stmt`` on every path that reaches it: the earlier siblings of it and of each enclosing statement."""
+    out = []
+    cur = stmt
+    while cur is not None and cur is not fn:
+        p = getattr(cur, "_parent", None)
+        for field in ("body", "orelse", "finalbody"):
+            seq = getattr(p, field, None)
+            if isinstance(seq, list) and any(x is cur for x in seq):
+                out += seq[: next(i for i, x in enumerate(seq) if x is cur)]
+        if isinstance(p, ast.match_case):
+            p = getattr(p, "_parent", None)
+        cur = p
+    return out
+
+
+# ---------------------------------------------------------------------------------------------------
+# R12.3: page sent => connection closed, on every path
+
+
+class PairSpec(GenericSpec):
+    """Alphabet: ('page', conn, id) for a `yield SendData(conn, <error page>)`, ('close', conn) for `yield CloseConnection(conn)`."""
+
+    def __init__(self, pages: dict, resolver=None):
+        super().__init__(resolver=resolver)
+        self.pages = pages
+
+    def events(self, node, st):
+        out = []
+        for n in eval_order(node):
+            if isinstance(n, ast.Yield) and isinstance(n.value, ast.Call):
+                if id(n) in self.pages:
+                    out.append(("page", self.pages[id(n)], id(n)))
+                elif last_attr(n.value.func) == "CloseConnection":
+                    out.append(("close", _conn_key(n.value)))
+        return out
+
+    def raises_into(self, stmt, handler_names, st):
+        # every statement of a ``try`` body that contains a call may raise into each of the handlers
+        if any(isinstance(n, ast.Call) for n in ast.walk(stmt)):
+            return list(dict.fromkeys(handler_names))
+        return []
+
+
+def _conn_key(call: ast.Call):
+    a = call.args[0] if call.args else next((k.value for k in call.keywords if k.arg in ("connection", "conn")), None)
+    fn = enclosing_func(call)
+    return (id(fn), vkey(a, fn) if a is not None else "")
+
+
+def _closed_after(trace) -> int:
+    """Number of 'page' events of the trace that are not followed by a 'close' of the same connection."""
+    bad = 0
+    for i, e in enumerate(trace):
+        if e[0] != "page":
+            continue
+        ok = False
+        for f in trace[i + 1:]:
+            if f[0] == "close" and (f[1][0] != e[1][0] or f[1][1] == e[1][1]):
+                ok = True
+                break
+        bad += 0 if ok else 1
+    return bad
+
+
+# ---------------------------------------------------------------------------------------------------
+# R12.3: framing by interpretation
+
+
+class _IdentityCodec:
+    """Stand-in for mitmproxy.net.encoding: identity stores the body as it is, "gzip" changes its length, anything else is invalid."""
+
+    @staticmethod
+    def encode(value, ce, *a, **k):
+        if ce in ("identity", None, ""):
+            return value
+        if ce == "gzip":
+            return b"\x1f\x8b" + value
+        raise ValueError("invalid content-encoding")
+
+    @staticmethod
+    def decode(value, ce, *a, **k):
+        if ce in ("identity", None, ""):
+            return value
+        if ce == "gzip" and value is not None:
+            return value[2:]
+        raise ValueError("invalid content-encoding")
+
+
+class _NullLogger:
+    """Stand-in for a stdlib logger while http.py is interpreted: logging has no effect on the rule's alphabet."""
+
+    def getLogger(self, *a, **k):
+        return self
+
+    getChild = getLogger
+    DEBUG, INFO, WARNING, ERROR, CRITICAL = 10, 20, 30, 40, 50
+
+
+_NULL_LOGGER = _NullLogger()
+
+
+class _Interp(Interp):
+    def ev_call(self, e, env, mod, depth):
+        f = e.func
+        if isinstance(f, ast.Attribute) and f.attr in _LOG_METHODS | {"isEnabledFor"}:
+            try:
+                recv = self.ev(f.value, env, mod, depth)
+            except AnalysisError:
+                recv = None
+            if recv is _NULL_LOGGER:
+                return False if f.attr == "isEnabledFor" else None  # the arguments of a log call are not evaluated
+        return super().ev_call(e, env, mod, depth)
+
+
+def _interp(model):
+    it = _Interp(model, trusted_modules={"time": _time, "collections": collections, "collections.abc": collections.abc, "logging": _NULL_LOGGER})
+    it.overrides[(HTTP, "encoding")] = _IdentityCodec
+    return it
+
+
+def _hdr(rec, name):
+    for k, v in rec._items.items():
+        kk = k.decode("latin-1") if isinstance(k, bytes) else k
+        if isinstance(kk, str) and kk.lower() == name:
+            return v.decode("latin-1") if isinstance(v, bytes) else v
+    return None
+
+
+def interpret_response_make(model, body: bytes, headers: dict):
+    """Interpret http.Response.make(502, body, Headers(headers)) from its AST.  -> (stored raw body, headers record)."""
+    it = _interp(model)
+    h = DictRec("Headers", dict(headers), case_insensitive=True)
+    try:
+        r = it.call(HTTP, "Response.make", ClassRef(model.module(HTTP), model.cls(HTTP, "Response")), 502, body, h)
+        if not isinstance(r, Rec):
+            raise AnalysisError(f"Response.make returns {type(r).__name__} in the interpreted model")
+        return it.getattr(r, "raw_content", None, 0), it.getattr(r, "headers", None, 0)
+    except Raised as e:
+        raise AnalysisError(f"Response.make(502, {body[:12]!r}.., Headers) raises {e} in the interpreted model")
+
+
+def interpret_content_setter(model, body: bytes, headers: dict):
+    """Interpret `msg.content = body` on a Response whose headers are ``headers``.  -> (stored raw body, headers record)."""
+    it = _interp(model)
+    h = DictRec("Headers", dict(headers), case_insensitive=True)
+    data = Rec("ResponseData", headers=h, content=None)
+    r = Rec("Response", _bases=("Message",), _impl=(HTTP, "Response"), data=data)
+    s = it.find_property(r, "content", "setter")
+    if s is None:
+        raise AnalysisError("http.Message.content has no setter any more")
+    try:
+        it.apply(Func(s[0], s[1], bound=r), [body], {}, 0)
+        return it.getattr(r, "raw_content", None, 0), it.getattr(r, "headers", None, 0)
+    except Raised as e:
+        raise AnalysisError(f"Message.content = {body[:12]!r}.. raises {e} in the interpreted model (headers {headers})")
+
+
+BODIES = [b"", b"<p>x</p>", "<html><body><p>é&lt;script&gt;</p></body></html>".encode() * 40]
 
 
 def check(ctx):
@@ -283,19 +1026,24 @@ def check(ctx):
     ctx.rule("R12.1", "every interpolation into an HTML-bearing string template is a constant, an int, a markup-free table lookup or html.escape()d "
              "(else peer-controlled text is reflected as markup)")
     ctx.rule("R12.4", "no transformation that can re-create markup (Unicode normalisation, unescape, unquote, unicode_escape) is applied to an escaped value or the finished page")
-    ctx.rule("R12.2", "format_error is only called, by the three protocol-error sites, each declaring content-type text/html in the same construction")
+    ctx.rule("R12.2", "wherever the page built by format_error ends up (followed through locals and helpers) content-type text/html is declared in the same "
+             "construction; the three protocol-error sites reach such a construction")
     ctx.rule("R12.3", "the HTTP/1 error response is Response.make (Content-Length) + Connection: close, serialised by assemble_response and followed "
              "by CloseConnection on every path")
     ctx.assume("a callee outside the analysed module returns data derived from its operands only; html.escape is trusted")
+    _BIND_CACHE.clear()
+    mods = m.all_modules()
+    stop = lambda c: last_attr(c.func) in ("make", "assemble_response", "format_error", "Headers")  # noqa: E731
+    res = Resolver(m, stop)
 
     # ---- R12.1 ---------------------------------------------------------------------------------
     fe = ctx.func(BASE, "format_error")
-    ctx.func(AUTH, "make_auth_required_response")
-    mods = m.all_modules()
+    auth = ctx.func(AUTH, "make_auth_required_response")
     found, spec, prog, hits = run_html(m, mods, "repository")
     by_node = {}
     for h in hits:
         by_node.setdefault(id(h.node), []).append(h)
+    tmpl_ids = {id(n) for _, n, _, _ in found}
     for mod, n, kind, interps in found:
         q = qual_of(n)
         ctx.functions.add(f"{mod.rel}::{q}")
@@ -305,16 +1053,20 @@ def check(ctx):
                 ctx.fail("R12.1", (mod.rel, q, n), f"HTML {kind} interpolates {{{h.arg}}}",
                          f"unescaped text reaches the page: {describe(h.origins)}", origins=sorted(o.text for o in h.origins))
         else:
-            ctx.ok("R12.1", f"{mod.rel}::{q} HTML {kind}, {len(interps)} interpolations clean: {', '.join(norm(e) for e in interps)}")
+            via = spec.internal.get(id(enclosing_func(n)))
+            ctx.ok("R12.1", f"{mod.rel}::{q} HTML {kind}, {len(interps)} interpolations clean: {', '.join(norm(e) for e in interps)}"
+                   + (f" (private helper: parameters decided at its callers {via})" if via else ""))
         ctx.cells += len(interps)
-    tpl_funcs = {(mod.rel, qual_of(n)) for mod, n, _, _ in found}
-    ctx.require((BASE, "format_error") in tpl_funcs, "format_error no longer contains an HTML template (anchor changed shape)")
-    ctx.require((AUTH, "make_auth_required_response") in tpl_funcs, "make_auth_required_response no longer contains an HTML template")
+    for h in hits:
+        if id(h.node) not in tmpl_ids:  # derived sink: source data enters a private helper's parameter that reaches its template
+            ctx.fail("R12.1", (h.rel, h.qual, h.node), f"{h.arg}(...) passes unescaped text into an HTML {h.desc or 'template'}",
+                     f"unescaped text reaches the page through the helper: {describe(h.origins)}", origins=sorted(o.text for o in h.origins))
+    tpl_fns = {id(enclosing_func(n)) for _, n, _, _ in found}
+    ctx.require(tpl_fns & set(reach(res, m.module(BASE), fe)), "format_error no longer builds an HTML template, itself or through a helper (anchor changed shape)")
+    ctx.require(tpl_fns & set(reach(res, m.module(AUTH), auth)), "make_auth_required_response no longer builds an HTML template")
     for d, why in prog.discharged():
         ctx.note(f"R12.1 discharged {d}: {why}")
-    # the escape must be applied to the message parameter of format_error itself
-    esc = [c for c in walk_in_order(fe) if isinstance(c, ast.Call) and norm(c.func) == "html.escape"]
-    ctx.require(fe.args.args and len(fe.args.args) >= 2, "format_error signature changed")
+    ctx.require(len(fe.args.posonlyargs + fe.args.args) >= 2, "format_error signature changed")
     # table of reason phrases: markup-free constants
     table = m.const(SC, "RESPONSES")
     ctx.require(isinstance(table, ast.Dict), "status_codes.RESPONSES is not a dict literal any more")
@@ -372,10 +1124,9 @@ def check(ctx):
                 return out
             return out
 
-    n_chk = 0
     for mod, n, kind, interps in found:
         fn = enclosing_func(n)
-        roots = [n] + [c for c in ast.walk(fn) if isinstance(c, ast.Call) and norm(c.func) == "html.escape"]
+        roots = [n] + [c for c in ast.walk(fn) if isinstance(c, ast.Call) and prog.dotted(mod, c.func) in spec.sanitisers]
         bad = None
         for r in roots:
             for w in _wrappers(r, fn, set()):
@@ -384,147 +1135,281 @@ def check(ctx):
                     bad = (w, DESANITISERS[name])
                 if name == "decode" and any(isinstance(a, ast.Constant) and "unicode_escape" in str(a.value).replace("-", "_") for a in list(w.args) + [k.value for k in w.keywords]):
                     bad = (w, "unicode_escape decoding turns \\x3c into <")
-        n_chk += 1
         ctx.check(bad is None, "R12.4", (mod.rel, qual_of(n), bad[0] if bad else n), f"{qual_of(n)}: escaped HTML is not transformed afterwards",
                   f"`{norm(bad[0])[:80] if bad else ''}` is applied after escaping: {bad[1] if bad else ''} - escaped input becomes live markup again",
                   desc=f"{mod.rel}::{qual_of(n)}: no de-sanitising transformation after html.escape")
     ctx.expect_instances("R12.4", 2)
 
-    # ---- R12.2 ---------------------------------------------------------------------------------
-    callers = []
-    for mod in mods:
-        if "format_error" not in mod.source:
-            continue
-        for n in walk_in_order(mod.tree):
-            ref = (isinstance(n, ast.Name) and n.id == "format_error") or (isinstance(n, ast.Attribute) and n.attr == "format_error")
-            if not ref:
-                continue
-            p = n._parent
-            q = qual_of(n)
-            if not (isinstance(p, ast.Call) and p.func is n):
-                ctx.fail("R12.2", (mod.rel, q, n), f"format_error referenced without a call: {norm(p)}", "the HTML body may travel to a place that does not declare text/html")
-                continue
-            callers.append((mod, q, p))
-    expected = {(H1, "make_error_response"), (H2, "Http2Connection._handle_event"), (H3, "Http3Connection._handle_event")}
-    for mod, q, call in callers:
+    ctx.guard(rule_2, ctx, m, mods, res)
+    ctx.guard(rule_3_response, ctx, m, mods, res)
+    ctx.guard(rule_3_framing, ctx, m)
+    ctx.guard(rule_3_close, ctx, m, mods, res)
+    ctx.expect_instances("R12.3", 7)
+
+
+def _is_response_make(call: ast.Call) -> bool:
+    return last_attr(call.func) == "make" and "Response" in norm(call.func)
+
+
+def _html_headers_sent(res, mod, fn, at_stmt, recv_node, sid_node, depth) -> bool:
+    """Is ``<recv>.send_headers(<sid>, <headers declaring text/html>)`` executed before ``at_stmt`` of ``fn`` on every path that reaches it?
+    Receiver and stream id are compared by value (single-assignment locals substituted).  When ``fn`` sends no headers on that stream
+    itself and the stream id is one of its parameters, the question is asked at each of its call sites instead (helper extraction).
+    True / False (no text/html declared) / AnalysisError (a shape the rule does not model)."""
+    where = f"{mod.rel}::{qual_of(fn)}"
+    recv, sid = vkey(recv_node, fn), vkey(sid_node, fn)
+    cands = []
+    for c in walk_in_order(fn):
+        if isinstance(c, ast.Call) and isinstance(c.func, ast.Attribute) and c.func.attr == "send_headers" and vkey(c.func.value, fn) == recv:
+            c_sid = c.args[0] if c.args else next((k.value for k in c.keywords if k.arg == "stream_id"), None)
+            c_hdr = c.args[1] if len(c.args) > 1 else next((k.value for k in c.keywords if k.arg == "headers"), None)
+            if c_sid is not None and vkey(c_sid, fn) == sid and c_hdr is not None:
+                cands.append((c, c_hdr))
+    if not cands:
+        callers = callers_in_module(res, mod, fn)
+        if not callers or depth >= 2:
+            return False  # the page is sent on a stream without any headers in sight
+        if not (isinstance(sid_node, ast.Name) and sid_node.id in _params(fn) + [x.arg for x in fn.args.kwonlyargs] and not _bindings(fn, sid_node.id)[0]):
+            raise AnalysisError(f"{where}: send_data(.., <error page>) without a send_headers on the same stream in the same function, and the stream id "
+                                f"`{norm(sid_node)}` is not a parameter the rule could follow to the callers")
+        if not recv.startswith("self."):
+            raise AnalysisError(f"{where}: the receiver `{recv}` of send_data(.., <error page>) cannot be identified in the callers")
+        for g, gcall in callers:
+            arg = None
+            for i, a in enumerate(gcall.args):
+                if isinstance(a, ast.Starred):
+                    break
+                if param_of_arg(fn, gcall, i, None) == sid_node.id:
+                    arg = a
+            for k in gcall.keywords:
+                if k.arg == sid_node.id:
+                    arg = k.value
+            if arg is None:
+                raise AnalysisError(f"{mod.rel}::{qual_of(g)}: the stream id handed to {fn.name}(..) is not explicit")
+            if not _html_headers_sent(res, mod, g, _stmt_of(gcall), recv_node, arg, depth + 1):
+                return False
+        return True
+    rc = RC(mod, fn)
+    html, unreadable = [], []
+    for c, h in cands:
+        try:
+            if res.header_is(res.headers(h, rc, where), "content-type", _is_text_html):
+                html.append(c)
+        except AnalysisError:
+            unreadable.append(c)  # e.g. the regular response headers of another branch, computed elsewhere
+    dom = _dominating_statements(at_stmt, fn)
+    ok = any(any(_stmt_of(c) is d for d in dom) for c in html)
+    if html and not ok:
+        raise AnalysisError(f"{where}: the send_headers call declaring text/html does not plainly precede send_data(.., <error page>) (control flow not modelled)")
+    if not ok and any(any(_stmt_of(c) is d for d in dom) for c in unreadable):
+        raise AnalysisError(f"{where}: the headers sent before send_data(.., <error page>) are not a header display the rule can read")
+    return ok
+
+
+def rule_2(ctx, m, mods, res):
+    def classify(call, idx, kw):
+        if _is_response_make(call) and (idx == 1 or kw == "content"):
+            return "Response.make"
+        if isinstance(call.func, ast.Attribute) and call.func.attr == "send_data" and (idx == 1 or kw == "data"):
+            return "send_headers + send_data"
+        return None
+
+    flow = Flow(m, mods, res, "format_error", classify)
+    for mod, n in flow.bare_refs:
+        ctx.fail("R12.2", (mod.rel, qual_of(n), n), f"format_error referenced without a call: {norm(n._parent)}", "the HTML body may travel to a place that does not declare text/html")
+    for mod, n, text in flow.problems:
+        raise AnalysisError(f"{mod.rel}::{qual_of(n)}: R12.2 cannot follow the page built by format_error: {text}")
+    anchors = [(H1, "make_error_response"), (H2, "Http2Connection._handle_event"), (H3, "Http3Connection._handle_event")]
+    anchor_reach = {a: reach(res, m.module(a[0]), ctx.func(*a)) for a in anchors}
+    sink_fns = set()
+    for mod, fn, call, shape, origin, rc in flow.sinks:
+        q = qual_of(fn)
         ctx.functions.add(f"{mod.rel}::{q}")
-        par = call._parent
-        ok, shape = False, None
-        if isinstance(par, ast.Call) and last_attr(par.func) == "make" and "Response" in norm(par.func):
-            shape = "Response.make"
-            content = par.args[1] if len(par.args) > 1 else _kw(par, "content")
-            headers = par.args[2] if len(par.args) > 2 else _kw(par, "headers")
-            if content is not call:
-                raise AnalysisError(f"{mod.rel}::{q}: format_error(...) is not the content argument of {norm(par.func)}")
-            ok = headers is not None and _headers_have(headers, "content-type", _is_text_html)
-        elif isinstance(par, ast.Call) and last_attr(par.func) == "send_data" and isinstance(par.func, ast.Attribute):
-            shape = "send_headers + send_data"
-            recv, sid = norm(par.func.value), norm(par.args[0]) if par.args else ""
-            st = _stmt_of(par)
-            for prev in _siblings_before(st):
-                for c in walk_in_order(prev):
-                    if (isinstance(c, ast.Call) and isinstance(c.func, ast.Attribute) and c.func.attr == "send_headers" and norm(c.func.value) == recv
-                            and c.args and norm(c.args[0]) == sid and len(c.args) > 1 and _headers_have(c.args[1], "content-type", _is_text_html)):
-                        ok = True
+        where = f"{mod.rel}::{q}"
+        if shape == "Response.make":
+            hexpr = call.args[2] if len(call.args) > 2 and not any(isinstance(a, ast.Starred) for a in call.args[:3]) else next((k.value for k in call.keywords if k.arg == "headers"), None)
+            ok = hexpr is not None and res.header_is(res.headers(hexpr, rc, where), "content-type", _is_text_html)
         else:
-            raise AnalysisError(f"{mod.rel}::{q}: format_error(...) used in a construction R12.2 does not model: {norm(par)}")
-        ctx.check(ok, "R12.2", (mod.rel, q, call), f"format_error via {shape}", "the HTML error body is sent without content-type: text/html in the same construction",
+            sid_node = call.args[0] if call.args and not isinstance(call.args[0], ast.Starred) else next((k.value for k in call.keywords if k.arg == "stream_id"), None)
+            ctx.require(sid_node is not None, f"{where}: send_data(.., <error page>) without a readable stream id")
+            ok = _html_headers_sent(res, mod, fn, _stmt_of(call), call.func.value, sid_node, 0)
+        ctx.check(ok, "R12.2", (mod.rel, q, origin), f"format_error via {shape}", "the HTML error body is sent without content-type: text/html in the same construction",
                   desc=f"{mod.rel}::{q} {shape} declares text/html")
-        if (mod.rel, q) not in expected:
-            ctx.note(f"R12.2: additional format_error caller {mod.rel}::{q} (checked like the others)")
-    missing = expected - {(mod.rel, q) for mod, q, _ in callers}
-    ctx.require(not missing, f"R12.2: expected format_error callers vanished: {sorted(missing)}")
+        if ok:
+            sink_fns.add(id(fn))
+        if not any(id(fn) in r for r in anchor_reach.values()):
+            ctx.note(f"R12.2: additional consumer of the format_error page {mod.rel}::{q} (checked like the others)")
+    all_sink_fns = {id(fn) for _, fn, _, _, _, _ in flow.sinks}
+    missing = [a for a in anchors if not (set(anchor_reach[a]) & all_sink_fns)]
+    ctx.require(not missing, f"R12.2: protocol-error sites that no longer reach a format_error page: {missing}")
+    if len(flow.producers) > 1:
+        ctx.note(f"R12.2: the page is also produced by {flow.producers[1:]} (callers followed)")
     ctx.expect_instances("R12.2", 3)
 
-    # ---- R12.3 ---------------------------------------------------------------------------------
+
+def rule_3_response(ctx, m, mods, res):
     mk = ctx.func(H1, "make_error_response")
-    rets = [n for n in walk_in_order(mk) if isinstance(n, ast.Return)]
-    ctx.require(len(rets) == 1 and isinstance(rets[0].value, ast.Call), "make_error_response no longer has a single `return <call>`")
-    ret = rets[0].value
-    ser_ok = last_attr(ret.func) == "assemble_response" and len(ret.args) == 1
-    resp_expr = ret.args[0] if ret.args else None
-    if isinstance(resp_expr, ast.Name):
-        defs = [s for s in walk_in_order(mk) if isinstance(s, ast.Assign) and any(isinstance(t, ast.Name) and t.id == resp_expr.id for t in s.targets)]
-        ctx.require(len(defs) == 1, f"make_error_response: {resp_expr.id} is not assigned exactly once")
-        resp_expr = defs[0].value
-    make_ok = isinstance(resp_expr, ast.Call) and last_attr(resp_expr.func) == "make" and "Response" in norm(resp_expr.func)
-    ctx.check(ser_ok and make_ok, "R12.3", (H1, "make_error_response", ret), "assemble_response(Response.make(...))",
-              "the error response is not built by Response.make and serialised by assemble_response (framing not guaranteed)",
+    h1 = m.module(H1)
+    rets = _own_returns(mk)
+    ctx.require(rets and not _is_generator(mk), "make_error_response no longer returns a value")
+    rc0 = RC(h1, mk)
+    makes = []  # (Response.make call, RC)
+    resp_trail: list = []  # (RC, local) that hold the response object between Response.make and assemble_response
+    ser_ok, why = True, ""
+    for r in rets:
+        for n, nrc in res.resolve(r.value, rc0):
+            if not isinstance(n, ast.Call):
+                raise AnalysisError(f"make_error_response: returned value `{norm(n)[:80]}` could not be resolved to a construction")
+            if not (last_attr(n.func) == "assemble_response" and len(n.args) == 1 and not n.keywords):
+                ser_ok, why = False, f"returns `{norm(n)[:80]}`"
+                continue
+            for a, arc in res.resolve(n.args[0], nrc, trail=resp_trail):
+                if not isinstance(a, ast.Call):
+                    raise AnalysisError(f"make_error_response: serialised value `{norm(a)[:80]}` could not be resolved to a construction")
+                if _is_response_make(a):
+                    makes.append((a, arc))
+                else:
+                    ser_ok, why = False, f"serialises `{norm(a)[:80]}`"
+    ctx.check(ser_ok and bool(makes), "R12.3", (H1, "make_error_response", rets[0]), "assemble_response(Response.make(...))",
+              f"the error response is not built by Response.make and serialised by assemble_response (framing not guaranteed): {why}",
               desc="make_error_response = assemble_response(Response.make(...))")
-    if make_ok:
-        headers = resp_expr.args[2] if len(resp_expr.args) > 2 else _kw(resp_expr, "headers")
-        close = headers is not None and _headers_have(headers, "connection", lambda v: (_text(v) or "").strip().lower() == "close")
-        te = headers is not None and _headers_have(headers, "transfer-encoding", lambda v: True)
-        ctx.check(close and not te, "R12.3", (H1, "make_error_response", resp_expr), "Headers(Connection=close, no Transfer-Encoding)",
+    for mkcall, rc in makes:
+        where = f"{rc.mod.rel}::{qual_of(mkcall)}"
+        hexpr = mkcall.args[2] if len(mkcall.args) > 2 and not any(isinstance(a, ast.Starred) for a in mkcall.args[:3]) else next((k.value for k in mkcall.keywords if k.arg == "headers"), None)
+        close = te = False
+        if hexpr is not None:
+            disp = res.headers(hexpr, rc, where)
+            close = res.header_is(disp, "connection", lambda t: t.strip().lower() == "close")
+            te = not res.header_absent(disp, "transfer-encoding", where)
+        # header writes on the response object between Response.make and serialisation
+        for trc, local in resp_trail:
+            for k, v in header_writes(trc.fn, f"{local}.headers", where):
+                t = res.text(k, trc)
+                if t is None:
+                    raise AnalysisError(f"{where}: header write `{local}.headers[{norm(k)[:40]}] = ..` on the error response is not modelled")
+                if t.lower() == "transfer-encoding":
+                    te = True
+                elif t.lower() == "connection":
+                    close = all(x.strip().lower() == "close" for x in (res.texts(v, trc) or [""]))
+                elif t.lower() == "content-length":
+                    raise AnalysisError(f"{where}: Content-Length of the error response is written by hand: not modelled")
+            for n in walk_in_order(trc.fn):
+                if isinstance(n, ast.Attribute) and isinstance(n.value, ast.Name) and n.value.id == local:
+                    par = getattr(n, "_parent", None)
+                    if isinstance(n.ctx, (ast.Store, ast.Del)) or (isinstance(par, ast.Call) and par.func is n and n.attr.startswith(("set_", "decode", "encode", "replace", "strip_"))):
+                        raise AnalysisError(f"{where}: `{norm(_stmt_of(n))[:80]}` modifies the error response after Response.make: not modelled")
+        ctx.check(close and not te, "R12.3", (H1, "make_error_response", mkcall), "Headers(Connection=close, no Transfer-Encoding)",
                   "the error response does not announce Connection: close (or passes a Transfer-Encoding, which suppresses Content-Length)",
                   desc="error response headers: Connection: close, no Transfer-Encoding")
-    # Response.make assigns through the content / text setters
-    rmake = ctx.func(HTTP, "Response.make")
-    targets = [attr_chain(t) for s in walk_in_order(rmake) if isinstance(s, ast.Assign) for t in s.targets]
-    through = [t for t in targets if t in ("resp.content", "resp.text")]
-    raw = [t for t in targets if t.endswith(".raw_content") or t.endswith(".data.content")]
-    ctx.check(len(through) >= 2 and not raw, "R12.3", (HTTP, "Response.make", rmake), "resp.content / resp.text = content",
-              "Response.make does not assign the body through the content/text setters (Content-Length would not be set)",
-              desc="Response.make assigns the body through the content and text setters")
-    setter = [d for q, d in m.module(HTTP).defs().items() if q == "Message.content"]
-    sc = ctx.func(HTTP, "Message.set_content")
-    cl = [s for s in walk_in_order(sc) if isinstance(s, ast.Assign) and len(s.targets) == 1 and isinstance(s.targets[0], ast.Subscript)
-          and norm(s.targets[0].value) == "self.headers" and (_text(s.targets[0].slice) or "").lower() == "content-length"]
-    ctx.require(len(cl) == 1, "Message.set_content no longer has exactly one Content-Length assignment")
-    val_ok = norm(cl[0].value) == "str(len(self.raw_content))"
-    guards = []
-    n = cl[0]
-    while n is not sc:
-        p = n._parent
-        if isinstance(p, ast.If):
-            guards.append((norm(p.test), n in p.orelse))
-        elif isinstance(p, (ast.For, ast.While, ast.Try, ast.With)):
-            guards.append((type(p).__name__, None))
-        n = p
-    guard_ok = guards == [("'transfer-encoding' in self.headers", True)]
-    ctx.check(val_ok and guard_ok, "R12.3", (HTTP, "Message.set_content", cl[0]), "content-length = str(len(self.raw_content)) unless transfer-encoding",
-              f"set_content does not always write the Content-Length of the stored body (guards {guards}, value {norm(cl[0].value)})",
-              desc="Message.set_content writes Content-Length = len(raw_content) whenever no Transfer-Encoding is present")
-    setter_calls = [c for q, d in m.module(HTTP).defs().items() if q == "Message.content" for c in walk_in_order(d)
-                    if isinstance(c, ast.Call) and norm(c.func) == "self.set_content"]
-    ctx.check(bool(setter_calls), "R12.3", (HTTP, "Message.content", sc), "content.setter -> set_content", "the content setter does not go through set_content",
-              desc="Message.content setter calls set_content")
-    # callers of make_error_response close the connection afterwards, on every path
-    n_callers = 0
-    h1 = m.module(H1)
-    for q, d in h1.defs().items():
-        if not isinstance(d, (ast.FunctionDef, ast.AsyncFunctionDef)) or q == "make_error_response":
-            continue
-        calls = [c for c in walk_in_order(d) if isinstance(c, ast.Call) and last_attr(c.func) == "make_error_response" and enclosing_func(c) is d]
-        if not calls:
-            continue
-        ctx.functions.add(f"{H1}::{q}")
-        for c in calls:
-            par = c._parent
-            ctx.require(isinstance(par, ast.Call) and last_attr(par.func) == "SendData" and isinstance(par._parent, ast.Yield),
-                        f"{H1}::{q}: make_error_response(...) is not sent by `yield SendData(...)`: {norm(par)}")
-        keep = {("call", norm(c.func)) for c in calls} | {("yield", "CloseConnection")}
-        traces, eng = traces_of(d, AnyCallMayRaise(keep=lambda ev: ev in keep))
-        bad = seen = 0
+
+
+def rule_3_framing(ctx, m):
+    ctx.func(HTTP, "Response.make")
+    ctx.func(HTTP, "Message.set_content")
+    ctx.trust("mitmlint.pyint interprets http.Response.make / the Message.content setter from their AST; mitmproxy.net.encoding is replaced by an identity/gzip/invalid stand-in")
+    base = {"Server": "mitmproxy", "Connection": "close", "Content-Type": "text/html"}
+    # 1. Response.make stores the body and writes its length
+    bad = None
+    for body in BODIES:
+        raw, hdr = interpret_response_make(m, body, base)
+        ctx.cells += 1
+        if not isinstance(hdr, DictRec):
+            raise AnalysisError("Response.make: the headers of the result are not the header object handed in (interpreted model)")
+        if raw != body or _hdr(hdr, "content-length") != str(len(body)) or _hdr(hdr, "transfer-encoding") is not None or (_hdr(hdr, "connection") or "").lower() != "close":
+            bad = bad or (body, raw, dict(hdr._items))
+    ctx.check(bad is None, "R12.3", (HTTP, "Response.make", ctx.model.func(HTTP, "Response.make")), "Response.make(status, body, headers) stores body, Content-Length = len(body)",
+              f"Response.make does not deliver the body with a matching Content-Length: body {bad[0][:20]!r}.. -> stored {str(bad[1])[:20]!r}, headers {bad[2]}" if bad else "",
+              desc=f"Response.make interpreted on {len(BODIES)} bodies: body stored through the content setter, Content-Length = len(body), headers kept")
+    # 2. the content setter always writes the length of what it stored, unless a Transfer-Encoding is present
+    scen = [("no length yet", {}), ("stale Content-Length", {"Content-Length": "999"}), ("invalid Content-Encoding", {"content-encoding": "bogus"}),
+            ("gzip Content-Encoding", {"content-encoding": "gzip"}), ("stale Content-Length, other case", {"CONTENT-LENGTH": "1"})]
+    bad = None
+    for label, hs in scen:
+        for body in BODIES[:2]:
+            raw, hdr = interpret_content_setter(m, body, dict(base, **hs))
+            ctx.cells += 1
+            if not isinstance(raw, bytes) or _hdr(hdr, "content-length") != str(len(raw)) or (label != "gzip Content-Encoding" and raw != body):
+                bad = bad or (label, body, raw, dict(hdr._items))
+    sc = ctx.model.func(HTTP, "Message.set_content")
+    ctx.check(bad is None, "R12.3", (HTTP, "Message.set_content", sc), "content-length = str(len(self.raw_content)) unless transfer-encoding",
+              f"the content setter does not always write the Content-Length of the stored body: scenario '{bad[0]}', body {bad[1][:20]!r} -> stored {str(bad[2])[:20]!r}, headers {bad[3]}" if bad else "",
+              desc=f"Message.content setter interpreted on {len(scen)} header scenarios: Content-Length = len(raw_content) whenever no Transfer-Encoding is present")
+    # 3. ... and it leaves a Transfer-Encoding framing alone (documented behaviour the headers rule relies on)
+    raw, hdr = interpret_content_setter(m, b"<p>x</p>", dict(base, **{"Transfer-Encoding": "chunked"}))
+    ctx.check(raw == b"<p>x</p>", "R12.3", (HTTP, "Message.content", sc), "content.setter stores the body", "the content setter does not store the body it is given",
+              desc="Message.content setter stores the body (Transfer-Encoding case: " + ("no Content-Length written)" if _hdr(hdr, "content-length") is None else "Content-Length written too)"))
+
+
+def rule_3_close(ctx, m, mods, res):
+    def classify(call, idx, kw):
+        if last_attr(call.func) == "SendData" and (idx == 1 or kw == "data"):
+            return "SendData"
+        return None
+
+    flow = Flow(m, mods, res, "make_error_response", classify)
+    for mod, n in flow.bare_refs:
+        raise AnalysisError(f"{mod.rel}::{qual_of(n)}: make_error_response is referenced without being called (`{norm(n._parent)[:80]}`): not modelled by R12.3")
+    for mod, n, text in flow.problems:
+        raise AnalysisError(f"{mod.rel}::{qual_of(n)}: make_error_response(...) is not sent by `yield SendData(...)`: {text}")
+    by_fn: dict = {}
+    for mod, fn, call, kind, origin, _rc in flow.sinks:
+        y = call._parent
+        ctx.require(isinstance(y, ast.Yield), f"{mod.rel}::{qual_of(fn)}: SendData(.., <error page>) is not yielded: {norm(y)[:80]}")
+        by_fn.setdefault(id(fn), (mod, fn, {}))[2][id(y)] = (_conn_key(call), y)
+
+    def run(mod, d, pages, inline):
+        def resolver(call):
+            t = res.callee(call, RC(mod, enclosing_func(call)))
+            return t[1] if t is not None and any(t[1] is f for f in inline) else None
+
+        traces, eng = traces_of(d, PairSpec(pages, resolver if inline else None))
+        bad, seen = 0, set()
         for trace, how, st in traces:
             ctx.paths += 1
-            if how != "return":
-                continue
-            seen += sum(1 for e in trace if e[0] == "call")
-            if not followed_by(trace, lambda e: e[0] == "call", lambda e: e == ("yield", "CloseConnection")):
-                bad += 1
-        ctx.require(seen >= len(calls), f"{H1}::{q}: the path engine reached only {seen} of {len(calls)} make_error_response sends (unmodelled control flow)")
-        n_callers += 1
-        ctx.check(bad == 0, "R12.3", (H1, q, calls[0]), "SendData(make_error_response(..)) then CloseConnection",
-                  f"{bad} path(s) send the error page (Connection: close) and return without closing the connection",
-                  desc=f"{H1}::{q}: {len(calls)} error page send(s) followed by CloseConnection on all {len(traces)} projected paths")
-    for other in mods:
-        if other.rel != H1 and "make_error_response" in other.source:
-            for n in walk_in_order(other.tree):
-                if isinstance(n, ast.Call) and last_attr(n.func) == "make_error_response":
-                    raise AnalysisError(f"{other.rel}::{qual_of(n)}: make_error_response is called outside _http1.py (caller not modelled by R12.3)")
-    ctx.require(n_callers >= 2, f"R12.3: only {n_callers} functions call make_error_response (2 confirmed by hand)")
-    ctx.expect_instances("R12.3", 7)
+            seen |= {e[2] for e in trace if e[0] == "page"}
+            if how == "return":
+                bad += 1 if _closed_after(trace) else 0
+        return bad, seen, len(traces)
+
+    def sites(mod, d, depth=0):
+        cs = callers_in_module(res, mod, d) if depth < 3 else []
+        return sum(sites(mod, g, depth + 1) for g, _ in cs) if cs else 1
+
+    n_sites = 0
+    for mod, d, pg in by_fn.values():
+        q = qual_of(d)
+        ctx.functions.add(f"{mod.rel}::{q}")
+        pages = {k: v[0] for k, v in pg.items()}
+        first = next(iter(pg.values()))[1]
+        n_sites += sites(mod, d)
+        bad, seen, n_tr = run(mod, d, pages, [])
+        ctx.require(seen == set(pages), f"{mod.rel}::{q}: the path engine reached only {len(seen)} of {len(pages)} error page sends (unmodelled control flow)")
+        if bad == 0:
+            ctx.ok("R12.3", f"{mod.rel}::{q}: {len(pages)} error page send(s) followed by CloseConnection on all {n_tr} projected paths")
+            continue
+        # the helper does not close the connection itself: the obligation moves to its callers, with the helper inlined
+        level, chain, failed = [(d, [d])], 0, None
+        while level and failed is None:
+            nxt = []
+            for f, inl in level:
+                cs = callers_in_module(res, mod, f)
+                if not cs or chain >= 2:
+                    failed = (f, bad)
+                    break
+                for g in {id(g): g for g, _ in cs}.values():
+                    b2, seen2, n2 = run(mod, g, pages, inl)
+                    ctx.require(seen2 == set(pages), f"{mod.rel}::{qual_of(g)}: the path engine did not reach the error page send inlined from {q}")
+                    ctx.functions.add(f"{mod.rel}::{qual_of(g)}")
+                    if b2:
+                        nxt.append((g, inl + [g]))
+                        bad = b2
+                    else:
+                        ctx.ok("R12.3", f"{mod.rel}::{qual_of(g)}: error page sent through {q} is followed by CloseConnection on all {n2} projected paths")
+            level, chain = nxt, chain + 1
+        if failed is not None:
+            ctx.fail("R12.3", (mod.rel, qual_of(failed[0]), first), "SendData(make_error_response(..)) then CloseConnection",
+                     f"{failed[1]} path(s) send the error page (Connection: close) and return without closing the connection")
+    ctx.require(n_sites >= 2, f"R12.3: only {n_sites} places send the HTTP/1 error page (2 confirmed by hand)")
 
 
 _FE_OLD = "<p>{html.escape(message)}</p>"
@@ -555,4 +1440,17 @@ MUTANTS = [
            "            if \"content-length\" not in self.headers:\n                self.headers[\"content-length\"] = str(len(self.raw_content))\n", "R12.3"),
     Mutant("response-make-raw-content", HTTP, "        if isinstance(content, bytes):\n            resp.content = content\n",
            "        if isinstance(content, bytes):\n            resp.raw_content = content\n", "R12.3"),
+    Mutant("h1-error-chunked-after-make", H1, "    return http1.assemble_response(resp)\n", "    resp.headers[\"transfer-encoding\"] = \"chunked\"\n    return http1.assemble_response(resp)\n", "R12.3"),
+    Mutant("h1-error-page-via-local-no-close", H1, "                    yield commands.SendData(self.conn, make_error_response(400, str(e)))\n                    yield commands.CloseConnection(self.conn)\n",
+           "                    bad_request = make_error_response(400, str(e))\n                    yield commands.SendData(self.conn, bad_request)\n", "R12.3"),
+    Mutant("h1-error-headers-helper-keepalive", H1, "def make_error_response(\n    status_code: int,\n    message: str = \"\",\n) -> bytes:\n    resp = http.Response.make(\n        status_code,\n        format_error(status_code, message),\n"
+           "        http.Headers(\n            Server=version.MITMPROXY,\n            Connection=\"close\",\n            Content_Type=\"text/html\",\n        ),\n",
+           "def _error_headers() -> http.Headers:\n    return http.Headers(Server=version.MITMPROXY, Content_Type=\"text/html\")\n\n\ndef make_error_response(\n    status_code: int,\n    message: str = \"\",\n) -> bytes:\n"
+           "    resp = http.Response.make(\n        status_code,\n        format_error(status_code, message),\n        _error_headers(),\n", "R12.3"),
+    Mutant("h1-error-body-via-local-text-plain", H1, "        format_error(status_code, message),\n        http.Headers(\n            Server=version.MITMPROXY,\n            Connection=\"close\",\n            Content_Type=\"text/html\",\n",
+           "        (page := format_error(status_code, message)),\n        http.Headers(\n            Server=version.MITMPROXY,\n            Connection=\"close\",\n            Content_Type=\"text/plain\",\n", "R12.2"),
+    Mutant("format-error-private-helper-unescaped", BASE, "def format_error(status_code: int, message: str) -> bytes:\n",
+           "def _wrap(body: str) -> str:\n    return f\"<html><body><p>{body}</p></body></html>\"\n\n\ndef format_note(note: str) -> bytes:\n    return _wrap(note).encode()\n\n\ndef format_error(status_code: int, message: str) -> bytes:\n", "R12.1"),
+    Mutant("format-error-template-constant-unescaped", BASE, "def format_error(status_code: int, message: str) -> bytes:\n",
+           "_NOTE = \"<p>{note}</p>\"\n\n\ndef format_note(note: str) -> bytes:\n    return textwrap.dedent(_NOTE).format(note=note).encode()\n\n\ndef format_error(status_code: int, message: str) -> bytes:\n", "R12.1"),
 ]
